@@ -23,14 +23,14 @@ private def choice (mode : TrailingZero) (p : FloatParts) (suffix : List Char) :
   | .ifNoPostfix => (nonzero || !hasPostfix, nonzero || !hasPostfix)
   | _ => (nonzero || !hasPostfix, nonzero)
 
-private theorem rewrite_eq (mode : TrailingZero) (hm : mode ≠ .preserve) (symbol suffix : List Char) (p : FloatParts)
+theorem rewrite_eq (mode : TrailingZero) (hm : mode ≠ .preserve) (symbol suffix : List Char) (p : FloatParts)
     (hp : parseFloatSymbol symbol = some p) :
     rewriteFloatLit mode symbol suffix =
       some (p.integerPart ++ (if (choice mode p suffix).1 then ['.'] else []) ++
         (if (choice mode p suffix).2 then p.fractionalPart.getD ['0'] else []) ++ p.exponent.getD [] ++ suffix) := by
   cases mode <;> first | exact absurd rfl hm | simp [rewriteFloatLit, hp, choice]
 
-private theorem frac_implies_point (mode : TrailingZero) (p : FloatParts) (suffix : List Char) :
+theorem frac_implies_point (mode : TrailingZero) (p : FloatParts) (suffix : List Char) :
     (choice mode p suffix).1 = false → (choice mode p suffix).2 = false := by
   cases mode <;> simp [choice] <;> intros <;> simp_all
 
@@ -164,7 +164,7 @@ theorem lower_underscore (c : Char) : (lowerAscii c != '_') = (c != '_') := by
   unfold lowerAscii
   split <;> first | rfl | decide
 
-private theorem hexValue_map (f : Char → Char) (hv : ∀ c, hexDigitVal (f c) = hexDigitVal c)
+theorem hexValue_map (f : Char → Char) (hv : ∀ c, hexDigitVal (f c) = hexDigitVal c)
     (hu : ∀ c, (f c != '_') = (c != '_')) (r : List Char) : hexValue (r.map f) = hexValue r := by
   unfold hexValue stripUnderscores
   have : ∀ (a : Nat), ((r.map f).filter (· != '_')).foldl (fun a c => a * 16 + hexDigitVal c) a =
